@@ -1,29 +1,54 @@
-"""In-memory file system behind the only storage seam chmpy uses:
-`pathlib.Path.write_text` / `pathlib.Path.read_text`.
+"""The simulated disk.
 
-Paths under /simfs/ are served from a dict; everything else falls through to
-the real implementation (chmpy's bundled data files). A *fault plan* makes
-the next write under /simfs/ fail with OSError, either before anything is
-stored or after a prefix of the text has been stored (torn file).
+Every run gets a private directory on tmpfs (/dev/shm) that is removed when
+the run ends: files the library writes are real files there, whichever I/O
+API it uses. Faults are injected at the seam chmpy actually uses for crystal
+files, `pathlib.Path.write_text` / `read_text`, for paths inside that
+directory: a write that raises before anything is stored or after a prefix was
+stored, a write that silently stores nothing or only a prefix, a read that
+raises.
 """
 import errno
+import os
 import pathlib
+import shutil
+import tempfile
 
-ROOT = "/simfs/"
 ERRNOS = {"ENOSPC": errno.ENOSPC, "EACCES": errno.EACCES, "EIO": errno.EIO}
+BASE = "/dev/shm" if os.path.isdir("/dev/shm") else tempfile.gettempdir()
+PREFIX = "chmpy-simfs-"
 
 
 class SimFS:
     def __init__(self):
-        self.store = {}
+        self.root = None
         self.plan = None  # (when, errno_name)
-        self.counts = {"writes": 0, "reads": 0, "write_faults": 0, "read_missing": 0}
+        self.counts = {"writes": 0, "reads": 0, "write_faults": 0, "read_faults": 0}
         self._installed = False
 
+    # ------------------------------------------------------------ lifecycle
     def reset(self):
-        self.store.clear()
+        self.cleanup()
+        self.root = tempfile.mkdtemp(prefix=PREFIX, dir=BASE)
         self.plan = None
 
+    def cleanup(self):
+        if self.root and os.path.isdir(self.root):
+            shutil.rmtree(self.root, ignore_errors=True)
+        self.root = None
+
+    def dir(self, *parts):
+        """An existing directory below the run's root."""
+        if self.root is None:
+            self.reset()
+        d = os.path.join(self.root, *parts)
+        os.makedirs(os.path.join(d, "sub"), exist_ok=True)
+        return d
+
+    def inside(self, p):
+        return self.root is not None and p.startswith(self.root + os.sep)
+
+    # --------------------------------------------------------------- faults
     def arm(self, when, errno_name):
         # before/after: the write raises (nothing / a prefix stored);
         # lost/short: the write *reports success* but nothing / a prefix is stored;
@@ -44,7 +69,7 @@ class SimFS:
 
         def write_text(self, data, *a, **k):
             p = str(self)
-            if not p.startswith(ROOT):
+            if not fs.inside(p):
                 return real_write(self, data, *a, **k)
             if not isinstance(data, str):
                 raise TypeError("data must be str, not %s" % type(data).__name__)
@@ -54,26 +79,22 @@ class SimFS:
                 fs.plan = None
                 fs.counts["write_faults"] += 1
                 if plan[0] in ("after", "short"):
-                    fs.store[p] = data[: len(data) // 2]
+                    real_write(self, data[: len(data) // 2], *a, **k)
                 if plan[0] in ("lost", "short"):
                     return len(data)
                 raise OSError(ERRNOS[plan[1]], "simulated " + plan[1], p)
-            fs.store[p] = data
-            return len(data)
+            return real_write(self, data, *a, **k)
 
         def read_text(self, *a, **k):
             p = str(self)
-            if not p.startswith(ROOT):
+            if not fs.inside(p):
                 return real_read(self, *a, **k)
             fs.counts["reads"] += 1
             if fs.plan is not None and fs.plan[0] == "read":
                 plan, fs.plan = fs.plan, None
-                fs.counts["read_faults"] = fs.counts.get("read_faults", 0) + 1
+                fs.counts["read_faults"] += 1
                 raise OSError(ERRNOS[plan[1]], "simulated " + plan[1], p)
-            if p not in fs.store:
-                fs.counts["read_missing"] += 1
-                raise FileNotFoundError(errno.ENOENT, "simulated ENOENT", p)
-            return fs.store[p]
+            return real_read(self, *a, **k)
 
         pathlib.Path.write_text = write_text
         pathlib.Path.read_text = read_text
@@ -81,3 +102,22 @@ class SimFS:
 
 
 FS = SimFS()
+
+
+def sweep_stale(max_age_s=1800):
+    """Remove run directories left behind by killed workers."""
+    import time
+
+    now = time.time()
+    try:
+        names = os.listdir(BASE)
+    except OSError:
+        return
+    for n in names:
+        if n.startswith(PREFIX):
+            p = os.path.join(BASE, n)
+            try:
+                if now - os.path.getmtime(p) > max_age_s:
+                    shutil.rmtree(p, ignore_errors=True)
+            except OSError:
+                pass
